@@ -157,21 +157,27 @@ def random_cases(draw):
     p = draw(st.integers(0, 6))
     n = draw(st.integers(p + 1, p + 40))
     kind = draw(st.sampled_from(["random", "random", "weight"]))
-    cname = draw(st.sampled_from(["float", "Fraction", "int"]))
+    cname = draw(st.sampled_from(["float", "Fraction", "int", "mixed"]))
     m = n - p
     if cname == "float":
         w = st.builds(lambda a, b: a / 2 ** b, st.integers(1, 40), st.integers(0, 4))
     elif cname == "int":
         w = st.integers(1, 12)
+    elif cname == "mixed":  # first weight an int, later ones Fractions / ints
+        w = st.one_of(st.integers(1, 5), st.builds(lambda a, b: F(a, b), st.integers(1, 20), st.integers(2, 9)))
     else:
         w = st.builds(lambda a, b: F(a, b), st.integers(1, 20), st.integers(1, 9))
+    weights = draw(st.lists(w, min_size=m, max_size=m))
+    if cname == "mixed":
+        weights[0] = draw(st.integers(1, 5))
+        kind = "weight"
     return {"kind": kind, "p": p, "n": n, "cls": cname, "seed": draw(st.integers(0, 2 ** 32 - 1)),
-            "weights": draw(st.lists(w, min_size=m, max_size=m))}
+            "weights": weights}
 
 
 def check_random(case, out):
     p, n, cname = case["p"], case["n"], case["cls"]
-    cls = CLS[cname]
+    cls = CLS.get(cname)
     out.cls("kind=" + case["kind"], "cls=" + cname)
     out.nontrivial = n - p >= 3
     if case["kind"] == "random":
